@@ -97,7 +97,7 @@ class C01(PropBase):
             opts = dict(use_update=bool(k & 1), relaxed=bool(k & 2), count=bool(k & 4), filter=rng.choice([None, [17], [4, 5, 11], [0, 16, 20, 21]]),
                         delete_after=rng.choice([0, 1, 60, -5]), groups=rng.choice(["", "aAews", "Q", "we", "xyz"]),
                         order=rng.choice(["", "sA", "aAcCdDNSWEsVv", "zz"]), update=rng.choice([-1, 0, 3, 10 ** 15, -10 ** 15]),
-                        show=int(k % 3 == 0))
+                        show=int(k % 3 == 0), elog=int(k % 4 == 1), dlog=int(k % 5 == 2), logm=rng.choice(["-", "17", "4,5,11,17,20,21"]))
             streams.append((opts, lines))
         sentinel_addr = 0xABC000
         for si, (opts, lines) in enumerate(streams):
